@@ -293,6 +293,8 @@ def dispatch (env : Env) (j : Json) : Json :=
         else if kind == "add" then
           let c := colOf colJ n
           r.setItem (.name c.col.key) c
+        else if kind == "popitem" then r.popItem
+        else if kind == "clear" then Record.clear (r.slots.length + 1) r
         else r.delItem (keyOf keyJ)
       let out := Json.mkObj [("exc", match res with | .ok () => Json.null | .error e => Json.str (errName e)), ("obs", obs r')]
       (r', outs ++ [out], n + 1)
